@@ -261,8 +261,11 @@ class System:
         self.options.update(kwargs)
         self.files.set(case=case, **kwargs)
         # TODO: clear all flags and empty data
-        andes.io.parse(self)
-        self.setup()
+        if not andes.io.parse(self):
+            self.exit_code += 1
+            return False
+
+        return self.setup()
 
     def _clear_adder_setter(self):
         """
